@@ -283,32 +283,70 @@ def ikText : PgVal → Option Bytes
   | .text b => some b
   | _ => none
 
+/-- the value `previousHash` receives -/
+def prevVal : PrevHash → PgVal
+  | none => .null
+  | some h => .bytea h
+
+/-- the query of the generated body (first statement of `set_log_hash`) -/
+def genQuery : LastRowQuery :=
+  { col := "hash", var := "previoushash", table := "logs", whereCol := "ledger", record := "new",
+    recordCol := "ledger", orderCol := "id", desc := true, limit := 1 }
+
 set_option maxRecDepth 4000 in
-theorem trigger_bridge (ledger : Bytes) (pid : Nat) (id : Int) (ty m : Bytes) (ts : PgTimestamp)
-    (ikv sv hash : PgVal) (ik : Bytes) (prev : PrevHash) (hik : ikText ikv = some ik) :
-    triggerPreimage (prevTable ledger pid prev) (mkRow ledger id ty m ts ikv sv hash) =
-      sqlClean prev (sqlJsonText ty m ts ik) := by
+/-- Bridge lemma: on ANY table for which the generated `select hash into previousHash …`
+    yields `prevVal prev`, the generated trigger body returns the row unchanged except
+    for `hash := digest (sqlClean prev (sqlJsonText …))`. -/
+theorem trigger_bridge_row (tbl : Table) (ledger : Bytes) (id : Int) (ty m : Bytes) (ts : PgTimestamp)
+    (ikv sv hash : PgVal) (ik : Bytes) (prev : PrevHash) (hik : ikText ikv = some ik)
+    (hsel : selectLastKey genQuery tbl "new" (some (.text ledger)) = .ok (prevVal prev)) :
+    runSetLogHash tbl (mkRow ledger id ty m ts ikv sv hash) =
+      match sqlClean prev (sqlJsonText ty m ts ik) with
+      | .ok pre => .ok (mkRow ledger id ty m ts ikv sv (.digest pre))
+      | .error e => .error e := by
   have hiso := jsonPlainString_quote (pgTimestampIso ts) (plain_pgTimestampIso ts)
   have hb1 : byteaIn [0x22] = .ok [0x22] := by decide
   have hb2 : byteaIn [0x22, 0x0a] = .ok [0x22, 0x0a] := by decide
   have hb3 : byteaIn [0x0a] = .ok [0x0a] := by decide
+  unfold genQuery at hsel
   cases prev with
   | none =>
+    simp only [prevVal] at hsel
     cases ikv <;> simp [ikText] at hik <;> subst hik <;>
-    simp [prevTable, mkRow, triggerPreimage, runSetLogHash, runTrigger, LogHash.setLogHash, LogHash.computeHash,
+    simp [mkRow, runSetLogHash, runTrigger, LogHash.setLogHash, LogHash.computeHash,
       execStmts, initVars, evalExpr,
-      selectLast, selectLastKey, pickLast, Row.get, Row.set, assignTo, lookupDecl, coerceAssign, setVar, lookupVar,
+      selectLast, hsel, Row.get, Row.set, assignTo, lookupDecl, coerceAssign, setVar, lookupVar,
       concatVals, textual, call2Val, call1Val, castVal, hiso, sqlJsonText, sqlClean, hb1, hb2, hb3] <;>
     (generalize byteaIn _ = r; cases r <;> simp [hb3])
   | some h =>
+    simp only [prevVal] at hsel
     cases ikv <;> simp [ikText] at hik <;> subst hik <;>
-    simp [prevTable, mkRow, triggerPreimage, runSetLogHash, runTrigger, LogHash.setLogHash, LogHash.computeHash,
+    simp [mkRow, runSetLogHash, runTrigger, LogHash.setLogHash, LogHash.computeHash,
       execStmts, initVars, evalExpr,
-      selectLast, selectLastKey, pickLast, Row.get, Row.set, assignTo, lookupDecl, coerceAssign, setVar, lookupVar,
+      selectLast, hsel, Row.get, Row.set, assignTo, lookupDecl, coerceAssign, setVar, lookupVar,
       concatVals, textual, call2Val, call1Val, castVal, hiso, sqlJsonText, sqlClean, hb1, hb2, hb3] <;>
     (generalize byteaIn (pgBase64 h) = r1; cases r1 <;> simp [hb1, hb2, hb3] <;>
      (generalize byteaIn _ = r; cases r <;> simp [hb1, hb2, hb3]))
 
+/-- the digest preimage, same hypothesis -/
+theorem trigger_bridge_sel (tbl : Table) (ledger : Bytes) (id : Int) (ty m : Bytes) (ts : PgTimestamp)
+    (ikv sv hash : PgVal) (ik : Bytes) (prev : PrevHash) (hik : ikText ikv = some ik)
+    (hsel : selectLastKey genQuery tbl "new" (some (.text ledger)) = .ok (prevVal prev)) :
+    triggerPreimage tbl (mkRow ledger id ty m ts ikv sv hash) =
+      sqlClean prev (sqlJsonText ty m ts ik) := by
+  rw [triggerPreimage, trigger_bridge_row tbl ledger id ty m ts ikv sv hash ik prev hik hsel]
+  cases sqlClean prev (sqlJsonText ty m ts ik) <;> simp [mkRow]
+
+theorem selectLastKey_prevTable (ledger : Bytes) (pid : Nat) (prev : PrevHash) :
+    selectLastKey genQuery (prevTable ledger pid prev) "new" (some (.text ledger)) = .ok (prevVal prev) := by
+  cases prev <;> simp [genQuery, selectLastKey, prevTable, pickLast, Row.get, prevVal]
+
+/-- the bridge on the one-row table used by `sqlPreimage` -/
+theorem trigger_bridge (ledger : Bytes) (pid : Nat) (id : Int) (ty m : Bytes) (ts : PgTimestamp)
+    (ikv sv hash : PgVal) (ik : Bytes) (prev : PrevHash) (hik : ikText ikv = some ik) :
+    triggerPreimage (prevTable ledger pid prev) (mkRow ledger id ty m ts ikv sv hash) =
+      sqlClean prev (sqlJsonText ty m ts ik) :=
+  trigger_bridge_sel _ ledger id ty m ts ikv sv hash ik prev hik (selectLastKey_prevTable ledger pid prev)
 
 /-! ### composition -/
 
